@@ -90,6 +90,20 @@ func checkPlanMore(prop, tier string, n func(int, int) int, comp map[string][]st
 				"Timestamp is ignored",
 			},
 			Components: map[string][]string{"real": realComponents, "stub": append([]string{"registry wrapper shells (yield before constructor / Configure / CheckApplies / Execute / registry reads) and the baton scheduler"}, stubComponents...)}}
+	case "C15":
+		return &checkPlan{Prop: prop, Level: "fault_enumeration", BudgetS: n(300, 3000), Measure: "nontrivial",
+			Batches: []batchSpec{
+				{Label: "cli+faults", Engine: "cli", Prop: "C15", Runs: n(500, 30000)},
+				{Label: "cli-fault-free", Engine: "cli", Prop: "C15", Mode: "nofault", Runs: n(200, 10000), FaultFree: true},
+			},
+			Rule: "one run = 4-16 invocations of the real zlint binary built from the working tree; each invocation draws output mode (JSON, -pretty, -summary, -longSummary and combinations), selection flags, an optional -config file, 1-4 input files or stdin (written in a seeded chunk plan, each chunk handed over only after the child consumed the previous one), an encoding (PEM/DER/base64, suffix or -format stated) and stream/selector faults (truncate at k, empty, one flipped byte, garbage prefix/suffix, missing path, directory, wrong PEM armor, wrong stated format, lying suffix, unknown name/source/profile, bad regexp, pattern+names, missing or truncated configuration). Oracle: the delivered bytes are classified with the public decoders; acceptable inputs must give exit 0 and results equal to the in-process library with the same selection and configuration (and summary counts equal to the counts of those results), the first unacceptable input must give exit != 0 with result objects for the inputs before it only, selector faults must give exit != 0 and no result object. distinct_nontrivial = invocations with a fault fired or several inputs.",
+			Assumption: []string{
+				"inputs whose classification the property does not fix (other PEM block types, CRLs outside PEM armor, contradictory suffix and -format, base64 with surrounding blanks) are generated rarely and judged only as 'exit 0 => output equals the library on the object the harness can obtain from the bytes'",
+				"only the counts of the summary tables are judged, not the (truncated) lint names of the long table",
+				"the harness binary carries probe lints the CLI binary does not have; they are removed from the library side before comparison and never named in selections",
+			},
+			Components: map[string][]string{"real": append([]string{"the zlint command-line binary built from v3/cmd/zlint (flag parsing, setLints, doLint, formattedoutput) as a child process"}, realComponents...),
+				"stub": {"stdin pipe transport with seeded chunk plan and consumed-before-next handshake (FIONREAD)", "scratch input / configuration files with injected faults"}}}
 	case "C01":
 		return &checkPlan{Prop: prop, Level: "fault_enumeration", BudgetS: n(240, 2400), Measure: "status_mix_cells",
 			Batches: []batchSpec{
